@@ -1,7 +1,7 @@
 #!/bin/bash
 # tools/run_all.sh [quick|thorough] : runs every registered check, validates evidence, prints a summary
 tier=${1:-quick}
-cd /verif
+cd "$(dirname "$0")/.."; export VERIF_EVIDENCE_DIR="$PWD/evidence"
 fail=0
 for id in $(/venv/bin/python -c "import json; print(' '.join(c['property_id'] for c in json.load(open('MANIFEST.json'))['checks']))"); do
   t0=$(date +%s)
@@ -11,9 +11,9 @@ for id in $(/venv/bin/python -c "import json; print(' '.join(c['property_id'] fo
   if [ $rc -ne 0 ]; then fail=1; echo "$out" | grep -A3 "^VIOLATION" | head -12; fi
   python3-vt -c "
 import json,jsonschema,sys
-jsonschema.validate(json.load(open('/verif/evidence/$id.json')), json.load(open('/root/.vp/EVIDENCE.schema.json')))" || { echo "$id: evidence invalid"; fail=1; }
+jsonschema.validate(json.load(open('evidence/$id.json')), json.load(open('/root/.vp/EVIDENCE.schema.json')))" || { echo "$id: evidence invalid"; fail=1; }
 done
 python3-vt -c "
 import json,jsonschema
-jsonschema.validate(json.load(open('/verif/MANIFEST.json')), json.load(open('/root/.vp/MANIFEST.schema.json')))" || fail=1
+jsonschema.validate(json.load(open('MANIFEST.json')), json.load(open('/root/.vp/MANIFEST.schema.json')))" || fail=1
 exit $fail
